@@ -2,6 +2,7 @@
 //! (one sub-command per property; each invocation is one single-threaded shard).
 mod c16;
 mod c18;
+mod realg;
 // mod c14;   // <- maintainer: C14 (bootstrapped grammar parser) goes here
 
 use vmon::shard::Args;
@@ -19,6 +20,7 @@ fn main() {
     with_big_stack(move || match a.prop.as_str() {
         "c16" => c16::run(&a),
         "c18" => c18::run(&a),
+        "c15g" | "c08g" | "c12g" => realg::run(&a),
         // "c14" => c14::run(&a),   // <- maintainer: add C14 here
         other => {
             eprintln!("unknown sub-command {other}");
